@@ -137,6 +137,36 @@ VH_FAMILY(composite)
       if(raw_rows(rep, "composite_adjactor.render", g, nd, ni, got)) compare_rows(rep, "composite_adjactor.render", got, want, cmp, sorted);
     }, std::string(first_inner_empty ? "first_inner_list_empty" : "-") + (C.total() == 0 ? "|no_edges" : ""), 2);
   }
+  // CompositeAdjactor over the library's own Graph adjactors, walked directly and rendered (seed C19f: the iterators of an
+  // empty Graph row point into the shared index array, whereas an empty std::vector list of VAdj has null iterators that
+  // compare equal to a default-constructed one, which hides a begin iterator left behind the last empty inner list)
+  {
+    bool all_inner_empty = false;
+    for(auto& row : A.a) { if(row.empty()) continue; bool all = true; for(Index j : row) if(!B.a[j].empty()) all = false; if(all) all_inner_empty = true; }
+    RenderType rt = all_rt[c.rng.below(8)];
+    set_tags(c, base, {std::string("rt:") + rt_name(rt), std::string(all_inner_empty ? "all_inner_lists_empty" : "some_inner_list_nonempty")});
+    guarded(c, "composite_adjactor.graphs", edge || first_inner_empty || all_inner_empty || A.total() == 0 || B.total() == 0, [&](Rep& rep) {
+      Graph gA(RenderType::as_is, A), gB(RenderType::as_is, B);
+      CompositeAdjactor<Graph, Graph> ca(gA, gB);
+      Rows walked(C.nd); bool overrun = false; Index bad_row = 0;
+      for(Index i = 0; i < C.nd && !overrun; ++i)
+      {
+        const std::size_t cap = C.a[i].size() + 4;
+        auto it = ca.image_begin(i); const auto jt = ca.image_end(i);
+        for(; it != jt; ++it) { if(walked[i].size() >= cap) { overrun = true; bad_row = i; break; } walked[i].push_back(*it); }
+      }
+      if(overrun) { rep.viol("composite_adjactor.graphs", "walk-overrun", vh::J().kv("row", (unsigned long)bad_row).raw("got", vh::jarr(walked[bad_row], 32)).raw("expected", vh::jarr(C.a[bad_row], 32)).str()); return; }
+      if(ca.get_num_nodes_domain() != C.nd || ca.get_num_nodes_image() != C.ni)
+      { rep.viol("composite_adjactor.graphs", "dims", vh::J().kv("domain", (unsigned long)ca.get_num_nodes_domain()).kv("image", (unsigned long)ca.get_num_nodes_image()).str()); return; }
+      if(!compare_rows(rep, "composite_adjactor.graphs", walked, C.a, SEQ, false)) return;
+      // mixed pair (harness relation first, Graph second) through the renderer
+      CompositeAdjactor<VAdj, Graph> cm(A, gB);
+      Graph g(rt, cm);
+      Index nd, ni; Rows want, got; Cmp cmp; bool sorted;
+      expect_of(rt, C, nd, ni, want, cmp, sorted);
+      if(raw_rows(rep, "composite_adjactor.graphs", g, nd, ni, got)) compare_rows(rep, "composite_adjactor.graphs", got, want, cmp, sorted);
+    }, std::string(first_inner_empty ? "first_inner_list_empty" : "-") + (all_inner_empty ? "|all_inner_lists_empty" : "") + (C.total() == 0 ? "|no_edges" : ""), 2);
+  }
   // DynamicGraph composite render and compose()
   {
     RenderType rt = all_rt[c.rng.below(8)];
